@@ -42,7 +42,8 @@ META = dict(
     technique='return-path analysis (must-pass-through copy_metadata), '
               'canonical-form equality of normalize / bg_correct with their '
               'defining formulas, axis-swap symmetry of zero_filter, weight typing '
-              'of make_center_priors, Welford recurrence check',
+              'of make_center_priors, Welford recurrence check'
+              "; truth table of bg_correct's refusals over its agreement tests (shape, pixel size without absolute tolerance, axis names, channel labels); per-operand pairing analysis over image views; detrend axes by name",
     level_text='Static: T1-T7 decide the defining identities that are visible in the '
                'expression each tool computes (for all images).  Library-dependent '
                'behaviour (xarray interpolation, Hough accuracy) is not decided; '
